@@ -183,7 +183,11 @@ static void run_case(const std::vector<std::string> &hdr, const std::vector<std:
     std::vector<std::vector<std::string>> threads;
     std::vector<int> sched;
     for (auto &w : lines) {
-        if (w[0] == "t" && w.size() > 1) threads.push_back(w);
+        if (w[0] == "t" && w.size() > 1) {
+            bool dup = false;   // at most one thread may destroy the promise object
+            if (w[1] == "dtor") for (auto &t : threads) dup = dup || t[1] == "dtor";
+            if (!dup) threads.push_back(w);
+        }
         else if (w[0] == "sched") for (std::size_t i = 1; i < w.size(); i++) sched.push_back(atoi(w[i].c_str()));
     }
     std::string T = hdr.size() > 3 ? hdr[3] : "int";
